@@ -115,6 +115,9 @@ func auditHeights(base, height int64, full bool) []int64 {
 type auditOpts struct {
 	full bool
 	post bool // after the handshake: the state store must be level with the block store
+	// stateOnly: the block-store part was audited on the very same database contents a moment
+	// ago (restart whose handshake wrote nothing): only the range / state checks are repeated
+	stateOnly bool
 }
 
 // audit checks everything the property says about [Base(), Height()] as the store reports
@@ -166,7 +169,13 @@ func (s *sim) audit(n *node, ctx string, o auditOpts) {
 	}
 	var prevID *types.BlockID
 	var prevH int64
-	for _, h := range auditHeights(base, height, o.full) {
+	var carried *types.Block // block h loaded as "next" of h-1: every block is loaded once
+	var carriedH int64
+	hs := auditHeights(base, height, o.full)
+	if o.stateOnly {
+		hs = nil
+	}
+	for _, h := range hs {
 		rec := s.blockAt(h)
 		if rec == nil {
 			e.Fail("C18", "unknown-block", "%s: store range [%d,%d] contains height %d that was never decided", ctx, base, height, h)
@@ -199,7 +208,11 @@ func (s *sim) audit(n *node, ctx string, o auditOpts) {
 		if !ps.IsComplete() {
 			e.Fail("C18", "part-mismatch", "%s: parts of height %d do not complete the part set", ctx, h)
 		}
-		block := bs.LoadBlock(h)
+		block := carried
+		if carried == nil || carriedH != h {
+			block = bs.LoadBlock(h)
+		}
+		carried = nil
 		if block == nil {
 			e.Fail("C18", "block-missing", "%s: block %d in [%d,%d] cannot be loaded although its meta can", ctx, h, base, height)
 		}
@@ -247,6 +260,7 @@ func (s *sim) audit(n *node, ctx string, o auditOpts) {
 				e.Fail("C18", "commit-missing", "%s: no commit for height %d in [%d,%d)", ctx, h, base, height)
 			}
 			next := bs.LoadBlock(h + 1)
+			carried, carriedH = next, h+1
 			if next == nil {
 				e.Fail("C18", "block-missing", "%s: block %d in [%d,%d] cannot be loaded", ctx, h+1, base, height)
 			}
